@@ -14,9 +14,9 @@ import (
 	"testing/synctest"
 	"time"
 
-	zanredisdb "github.com/youzan/go-zanredisdb"
 	"github.com/youzan/ZanRedisDB/node"
 	"github.com/youzan/ZanRedisDB/raft"
+	zanredisdb "github.com/youzan/go-zanredisdb"
 
 	"verif/sim/core"
 	"verif/sim/model"
@@ -30,18 +30,19 @@ type cfg struct {
 	engine                         string
 	ops                            int
 	faults                         bool
+	oldPartitions                  int
 }
 
 func pick(t *core.Tape, vals ...int) int { return vals[t.Choose(len(vals))] }
 
 type sim struct {
-	c    *core.RunCtx
-	t    *core.Tape
-	cfg  cfg
-	cl   *nodeh.Cluster
-	mdl  *model.Store
-	keys []string // table:key pool
-	nval int
+	c        *core.RunCtx
+	t        *core.Tape
+	cfg      cfg
+	cl       *nodeh.Cluster
+	mdl      *model.Store
+	keys     []string // table:key pool
+	nval     int
 	nchecked int
 	ncross   int
 }
@@ -96,6 +97,13 @@ func Run(c *core.RunCtx) {
 	s.cfg.engine = []string{"mem", "pebble"}[pick(t, 0, 0, 1)]
 	s.cfg.ops = pick(t, 40, 80, 120)
 	s.cfg.faults = t.Choose(3) == 0 && s.cfg.replicas > 1
+	if t.Choose(4) == 0 {
+		// the namespace existed before with another partition count
+		s.cfg.oldPartitions = pick(t, 1, 2, 3, 4, 6)
+		if s.cfg.oldPartitions == s.cfg.partitions {
+			s.cfg.oldPartitions++
+		}
+	}
 	raft.VerifSeedGlobalRand(int64(t.U32()))
 	c.Log("cfg", "%+v", s.cfg)
 	func() {
@@ -116,7 +124,9 @@ func Run(c *core.RunCtx) {
 	c.Sample = map[string]interface{}{"config": fmt.Sprintf("%+v", s.cfg), "commands": s.nchecked, "cross_partition_multikey_commands": s.ncross}
 }
 
-func (s *sim) part(key string) int { return zanredisdb.GetHashedPartitionID([]byte(key), s.cfg.partitions) }
+func (s *sim) part(key string) int {
+	return zanredisdb.GetHashedPartitionID([]byte(key), s.cfg.partitions)
+}
 
 func (s *sim) val() string { s.nval++; return fmt.Sprintf("v%d", s.nval) }
 
@@ -157,7 +167,10 @@ func (s *sim) holders(key string) []int {
 func (s *sim) bubble() {
 	c, t, g := s.c, s.t, s.cfg
 	cl := nodeh.New(c, nodeh.Options{Machines: g.machines, Partitions: g.partitions, Replicas: g.replicas, Engine: g.engine,
-		SnapCount: 50, SnapCatchup: 10, KeepBackup: 3})
+		SnapCount: 50, SnapCatchup: 10, KeepBackup: 3, OldPartitions: g.oldPartitions})
+	if g.oldPartitions > 0 {
+		c.Fault("namespace_recreated_with_other_partition_count")
+	}
 	s.cl = cl
 	defer cl.Close()
 	cl.PumpFair(150, s.allLeaders)
